@@ -80,6 +80,19 @@ def scenarios(wtf, base):
     for n in (2, 40):
         out.append(("save/%d" % n, True, notebook_path, ["save", "--", "brand new command", "brand new description\nsecond line"], prep_notebook(n)))
     out.append(("save-pipeline/2", True, notebook_path, ["save-pipeline", "--", "stats", "cat f | sort | uniq -c"], prep_notebook(2)))
+
+    def prep_symlinked(n):
+        base_prep = prep_notebook(n)
+
+        def p(home):
+            base_prep(home)
+            nb = notebook_path(home)
+            real = os.path.join(home, "dotfiles-personal.yml")
+            os.replace(nb, real)
+            os.symlink(real, nb)
+        return p
+    # the notebook is a symbolic link into a dotfiles directory (stow / chezmoi style)
+    out.append(("save-symlink/6", True, notebook_path, ["save", "--", "brand new command", "brand new description"], prep_symlinked(6)))
     for n in (1, 60):
         out.append(("history/%d" % n, False, history_path, ["--database", db, "list files"], prep_history(n)))
     return out
